@@ -276,6 +276,10 @@ func (r *Reconciler) updateInstanceWithCurrentRS(logger logr.Logger, now time.Ti
 			// if the Canary Deployment is not active anymore remove the canary annotations
 			updateDaemonsetAnnotations = clearCanaryAnnotations(newDaemonset)
 		}
+	} else {
+		// The canary strategy was removed from the spec: no canary can be in progress anymore, so the
+		// canary recorded in the status (and its nodes) must not survive.
+		newDaemonset.Status.Canary = nil
 	}
 
 	// Check if newDaemonset differs from existing daemonset, and update if so
